@@ -604,6 +604,11 @@ def _normalize_media(media: Type[ComponentMediaInput]) -> None:
             css = lazy_eval_css
     ```
     """
+    # Allow: class Media: css = [] (also `()`, `""`, `b""`) - no CSS files, same as `js = []` / `js = ""`.
+    # Django's Media reads `css` as a dict, so an empty value of the list / string forms must be normalized too.
+    if isinstance(getattr(media, "css", None), (list, tuple, str, bytes)) and not media.css:
+        media.css = {}  # type: ignore[assignment]
+
     if hasattr(media, "css") and media.css:
         # Allow: class Media: css = "style.css"
         if _is_media_filepath(media.css):
